@@ -536,14 +536,19 @@ def build_archive(specs):
 
 
 def section_bounds(obj_specs):
-    """{section name: (sum of sizes, upper bound of the merged size, max alignment)}."""
-    out = {}
+    """{section name: (sum of sizes, upper bound of the merged size, max alignment)}.
+
+    The upper bound allows every input to be padded up to the largest alignment
+    of its name twice (merging directly, or through one level of partial links
+    whose outputs carry the maximum alignment of their group).
+    """
+    acc = {}
     for ob in obj_specs:
         for s in ob["sections"]:
             size = len(s["data"]) // 2
-            lo, ub, al = out.get(s["name"], (0, 0, 1))
-            out[s["name"]] = (lo + size, ub + size + s["alignment"] - 1, max(al, s["alignment"]))
-    return out
+            lo, n, al = acc.get(s["name"], (0, 0, 1))
+            acc[s["name"]] = (lo + size, n + 1, max(al, s["alignment"]))
+    return {name: (lo, lo + 2 * n * al, al) for name, (lo, n, al) in acc.items()}
 
 
 def gen_layout(r, obj_specs, fit=True, certain=None, addr_hi=None, addr_lo=0, page_aligned=None,
